@@ -75,7 +75,12 @@ def _run_case_inner(ctx, case):
     def bad(bucket, msg):
         raise Discrepancy(bucket, msg, case)
     try:
+        # (with many cosigners only some of them take part: the others' wallets are never opened)
+        part = sorted(set(x % n for x in case['participants'])) if case.get('participants') else list(range(n))
         for i in range(n):
+            if i not in part:
+                wallets.append(None)
+                continue
             uri, path = wu.db_uri('%s-%d' % (tag, i))
             paths.append(path)
             keys = [hks[j] if j == i else hks[j].public_master(multisig=True) for j in range(n)]
@@ -90,7 +95,7 @@ def _run_case_inner(ctx, case):
         # ---- (1) same script and address everywhere ---------------------------------------------------------
         want_addr, want_script = _ref_script(case, 0, 0)
         addrs = []
-        for i, w in enumerate(wallets):
+        for i, w in [(i_, w_) for i_, w_ in enumerate(wallets) if w_ is not None]:
             try:
                 k = w.new_key(cosigner_id=0) if wt == 'legacy' else w.get_key()
                 addrs.append(k.address)
@@ -107,7 +112,7 @@ def _run_case_inner(ctx, case):
             want_a, want_s = _ref_script(case, change, index)
             ref_scripts[want_a] = want_s
             got = []
-            for i, w in enumerate(wallets):
+            for i, w in [(i_, w_) for i_, w_ in enumerate(wallets) if w_ is not None]:
                 try:
                     if wt == 'legacy':
                         k = w.new_key(cosigner_id=0, change=change)
@@ -128,7 +133,7 @@ def _run_case_inner(ctx, case):
         if bulk:
             flags.add('bulk_keys')
             per_wallet = []
-            for i, w in enumerate(wallets):
+            for i, w in [(i_, w_) for i_, w_ in enumerate(wallets) if w_ is not None]:
                 kw = {'cosigner_id': 0} if wt == 'legacy' else {}
                 handed = []
                 try:
@@ -162,12 +167,12 @@ def _run_case_inner(ctx, case):
                 bad('address.disagree', 'cosigner wallets hand out different keys for the same requests: %r' %
                     per_wallet)
         # ---- (2) ceremony -------------------------------------------------------------------------------------
-        creator = case['creator'] % n
+        creator = part[case['creator'] % len(part)]
         wa = wallets[creator]
         try:
             # every cosigner wallet has synchronised its UTXOs, as the library asks of online wallets ("Please
             # update UTXO's if this is not an offline wallet"); an unsynchronised wallet is not explored
-            for w in wallets:
+            for w in [w_ for w_ in wallets if w_ is not None]:
                 w.utxos_update()
             utxos = [x for x in wa.utxos() if x['address'] in ref_scripts]
             u = utxos[case['creator'] % len(utxos)]
@@ -229,7 +234,7 @@ def _run_case_inner(ctx, case):
             if tc is not None:
                 _judge(ctx, case, tc, signed, m, spk, amount, 'creator signing %d times with different nonces' % m,
                        flags)
-                other = wallets[(creator + 1) % n]
+                other = wallets[part[(part.index(creator) + 1) % len(part)]]
                 try:
                     ti = other.transaction_import(tc.as_dict())
                 except Exception as e:
@@ -240,7 +245,7 @@ def _run_case_inner(ctx, case):
                            'times by one cosigner' % m, flags)
         prev_medium = None
         for step, h in enumerate(case['handoffs']):
-            j = h['signer'] % n
+            j = part[h['signer'] % len(part)]
             wj = wallets[j]
             medium = h['medium']
             if medium == 'raw' and min(len(s_) for s_ in signed) < m and \
@@ -306,7 +311,7 @@ def _run_case_inner(ctx, case):
                 flags.add('multi_handoff')
         return flags
     finally:
-        for w in wallets:
+        for w in [w_ for w_ in wallets if w_ is not None]:
             wu.close_wallet(w)
         for p in paths:
             try:
@@ -580,6 +585,28 @@ def run(ctx):
         if len(ctx.samples) < 2:
             ctx.sample(case)
     ctx.run_given('ceremony', _strategy(ctx), prop, ctx.scale(5, 60), shrink=ctx.tier == 'thorough')
+    # ceremonies with many cosigners (thorough tier): 7, 11 and 15 keys, m + 1 of the cosigners take part
+    if ctx.tier == 'thorough':
+        from hypothesis import strategies as hst
+
+        @hst.composite
+        def big(draw):
+            base = draw(_strategy(ctx))
+            n_ = draw(hst.sampled_from([7, 11, 15]))
+            m_ = draw(hst.sampled_from([2, 3]))
+            seeds = draw(hst.lists(hst.binary(min_size=16, max_size=16), min_size=n_, max_size=n_, unique=True))
+            part = draw(hst.lists(hst.integers(0, n_ - 1), min_size=m_ + 1, max_size=m_ + 1, unique=True))
+            perms = [list(draw(hst.permutations(list(range(n_))))) for _ in range(n_)]
+            afs = base['afs'] and [bool(k_ % 2) for k_ in range(n_)]
+            return dict(base, n=n_, m=m_, seeds=[x.hex() for x in seeds], perms=perms, participants=part, afs=afs,
+                        bulk=0, two_inputs=False)
+
+        def prop_big(case):
+            ctx.klass('shape.big.%d-of-%d.%s' % (case['m'], case['n'], case['witness_type']))
+            for f in run_case(ctx, case):
+                ctx.klass('ceremony.big.' + f)
+            ctx.nt(case)
+        ctx.run_given('ceremony_big', big(), prop_big, 4, shrink=False)
     # more than ten cosigners: one directed case per shard (quick), the whole grid in the thorough tier
     grid = [(n_, wt_, sort_) for n_ in (11, 12, 15) for wt_ in ('legacy', 'segwit', 'p2sh-segwit')
             for sort_ in (False, True)]
